@@ -115,7 +115,7 @@ pub fn recover_first<const S: usize>(sh: &Shape, k: usize) {
     let plen = any_len(Z);
     let fid: u8 = kani::any();
     let total: u16 = kani::any();
-    kani::assume(total as usize > plen);
+    kani::assume(total as usize > plen + 2 + label.len());
     let mut buf: [u8; NB] = kani::any();
     let n = write_start(&mut buf, true, &label, fid, total, ptype, &payload, plen);
     let len = any_len(NB);
